@@ -1065,7 +1065,7 @@ class H:
     # ------------------------------------------------------------------ operation alphabet in the current state
     def gen_ops(self, level):
         """level 'F': full alphabet, 'R': reduced alphabet, 'O': observations only (reduced keys and clicks)."""
-        if level in ("K", "S"):
+        if level in ("K", "k", "S", "s"):
             return self.gen_ops_focus(level)
         full = level == "F"
         ops = [["key", k] for k in (KEYS_FULL if full else KEYS_RED)]
@@ -1123,10 +1123,13 @@ class H:
         return ops
 
     def gen_ops_focus(self, level):
-        """level 'K': every key of the full alphabet, nothing else; 'S': every valid focus_position assignment on every
-        container and set_focus_path of every root-to-leaf path (and of every proper prefix that ends at a container)."""
+        """level 'K': every key of the full alphabet, nothing else; 'k': the keys that scroll a ListBox; 'S': every valid
+        focus_position assignment on every container and set_focus_path of every root-to-leaf path (and of every proper
+        prefix that ends at a container); 's': the focus_position assignments only."""
         if level == "K":
             return [["key", k] for k in KEYS_FULL]
+        if level == "k":
+            return [["key", k] for k in ("down", "page down", "end")]
         ops = []
         paths = []
 
@@ -1142,7 +1145,7 @@ class H:
                 walk(c, [*acc, p])
 
         walk(self.root, [])
-        return ops + [["setpath", p] for p in paths]
+        return ops + ([["setpath", p] for p in paths] if level == "S" else [])
 
     def gen_edits(self, n, full):
         out = []
@@ -1447,7 +1450,7 @@ def _tasks(tier, seed):
         size = len(json.dumps(tree)) // 20
         cost = 1
         for lvl in levels:
-            cost *= {"F": 60 + 25 * size, "R": 28 + 8 * size, "O": 10 + size, "K": 10, "S": 6 + 6 * size}[lvl]
+            cost *= {"F": 60 + 25 * size, "R": 28 + 8 * size, "O": 10 + size, "K": 10, "k": 3, "S": 6 + 6 * size, "s": 3 + 3 * size}[lvl]
         tasks.append((("explore", tree, mode, levels), cost * (1 + size)))
 
     if tier == "quick":
@@ -1468,7 +1471,7 @@ def _tasks(tier, seed):
         for i, t in enumerate(LONG):
             for mode in "AB":
                 ex(t, mode, "SK")
-            ex(t, "AB"[i % 2], "KSK")
+            ex(t, "AB"[i % 2], "ksK")
         for i, t in enumerate(SQUEEZED):
             for mode in "AB":
                 ex(t, mode, "F")
@@ -1479,7 +1482,7 @@ def _tasks(tier, seed):
             f"{len(flat)} flat containers (0-3 leaves S/U; Frame with/without header/footer; Overlay): every single operation of the full alphabet, modes A and B; "
             f"{len(small)} of them (<=2 leaves) and {len(PAIRS)} two-level nestings: all histories of length 2 over the reduced alphabet, one mode each; "
             f"{len(nested)} two-level nestings (13 inner containers x 4 sibling patterns x 5 list containers, Frame parts, Overlay): every single operation (full alphabet for every fourth, reduced otherwise); "
-            f"{len(d3[::3])} three-level nestings: reduced single operations; {len(EXTRA)} hand-picked nestings: full single operations; {len(LONG)} nestings with a ListBox longer than its view (5-16 items, one-row and taller): every focus_position assignment / set_focus_path followed by every key, both modes, and the same after one more key before it, one mode; {len(SQUEEZED)} Frames whose header + footer rows fill the frame (trimmed parts): every single operation of the full alphabet in both modes, every assignment followed by every key in one mode; 48 seeded random depth-3 trees x 3 histories of length 4 (non-exhaustive)"
+            f"{len(d3[::3])} three-level nestings: reduced single operations; {len(EXTRA)} hand-picked nestings: full single operations; {len(LONG)} nestings with a ListBox longer than its view (5-16 items, one-row and taller): every focus_position assignment / set_focus_path followed by every key, both modes, and a scrolling key (down, page down, end), a focus_position assignment and any key, one mode; {len(SQUEEZED)} Frames whose header + footer rows fill the frame (trimmed parts): every single operation of the full alphabet in both modes, every assignment followed by every key in one mode; 48 seeded random depth-3 trees x 3 histories of length 4 (non-exhaustive)"
         )
     else:
         for t in flat:
@@ -1503,10 +1506,10 @@ def _tasks(tier, seed):
         for t in EXTRA:
             for mode in "AB":
                 ex(t, mode, "FR")
-        for t in LONG:
+        for i, t in enumerate(LONG):
             for mode in "AB":
                 ex(t, mode, "KSK")
-                ex(t, mode, "SSK")
+            ex(t, "AB"[i % 2], "sSK")
         for t in SQUEEZED:
             for mode in "AB":
                 ex(t, mode, "FR")
@@ -1517,7 +1520,7 @@ def _tasks(tier, seed):
             f"{len(flat)} flat containers (0-3 leaves S/U; Frame parts; Overlay): all histories of length <=2 (full alphabet, then reduced), modes A and B; "
             f"{len(small)} of them (<=2 leaves): all histories of two reduced-alphabet operations followed by one key or click, one mode each; {len(PAIRS)} two-level nestings: length <=2 (full, reduced), both modes; "
             f"{len(nested)} two-level nestings: every single operation of the full alphabet in both modes, every third one also every reduced operation followed by a key or click; "
-            f"{len(d3)} three-level nestings: single operations (full) in both modes, every fourth also reduced operation + key/click; {len(EXTRA)} hand-picked nestings: length <=2; {len(LONG)} nestings with a ListBox longer than its view: key + assignment + key and two assignments + key, both modes; {len(SQUEEZED)} Frames with trimmed header/footer: length <=2 (full, reduced) and assignment + two keys, both modes; 480 seeded random depth-3 trees x 5 histories of length 6 (non-exhaustive)"
+            f"{len(d3)} three-level nestings: single operations (full) in both modes, every fourth also reduced operation + key/click; {len(EXTRA)} hand-picked nestings: length <=2; {len(LONG)} nestings with a ListBox longer than its view: key + assignment + key in both modes, focus_position assignment + assignment + key in one mode; {len(SQUEEZED)} Frames with trimmed header/footer: length <=2 (full, reduced) and assignment + two keys, both modes; 480 seeded random depth-3 trees x 5 histories of length 6 (non-exhaustive)"
         )
     return tasks, bound
 
